@@ -4,7 +4,7 @@ from compile_common import GEN_RULE, TRUSTED, stream, strcase_stream
 
 CONFIG = {
     "lean_props": "J5V/Props/C02.lean",
-    "extract": ["compileconsts"],
+    "extract": ["compileconsts", "builders"],
     "streams": [
         stream("skel", {"quick": 960, "thorough": 16000, "search": 1920}, {"quick": 16, "thorough": 16, "search": 16},
                GEN_RULE + " Op `skel`: compile one package of the bundle; result = canonical skeleton of every generated file (name, package, "
